@@ -2,6 +2,8 @@ import XvcIgnore.GitLemmas
 import XvcIgnore.GitMono
 import XvcIgnore.GitDir
 import XvcIgnore.Gen.GitignoreWrites
+import XvcIgnore.CacheDir
+import XvcIgnore.Gen.HashAlgorithms
 /-!
   # C16 — Tracked data files never enter Git
 
@@ -530,6 +532,48 @@ theorem C16_cache_never_staged (rest : Str) (c : Str) (more : List Str) (isDir :
     have : v = false := lastMatch_val_of_nonneg _ d _ hrest v hB
     simp [this]
 
+/-! ### for every cache algorithm
+
+  The cache directory is a function of the configured `cache.algorithm` (CacheDir.lean); the table of
+  variants is regenerated from core/src/types/hashalgorithm.rs. -/
+
+/-- the model's `HashAlgorithm` has exactly the variants of the Rust enum, with the same cache directory
+    names and configuration values (generated table) -/
+theorem C16_hash_algorithms_as_in_source :
+    HashAlgorithm.all.map (fun a => (a.variant, a.cachePrefix, a.configValue)) = Gen.HASH_ALGORITHMS := by decide
+
+/-- **The init block hides the cache of EVERY algorithm**: whatever `cache.algorithm` is, every entry at or below
+    `.xvc/<cache directory of the algorithm>` is ignored by git — under the same conditions as
+    `C16_cache_never_staged` (the root `.gitignore` starts with the regenerated text of `xvc init`, the rest
+    has no negation, `.xvc` has no `.gitignore` of its own). -/
+theorem C16_cache_ignored_for_every_algorithm (alg : HashAlgorithm) (rest : Str) (more : List Str) (isDir : Bool)
+    (deeper : List Str) (hrest : ∀ g ∈ parseContent rest, g.neg = false) :
+    ignoredBy ((Gen.GITIGNORE_INITIAL_CONTENT.toList ++ rest) :: [] :: deeper)
+      (".xvc".toList :: alg.cachePrefix.toList :: more) isDir = true := by
+  apply C16_cache_never_staged rest alg.cachePrefix.toList more isDir deeper _ _ _ _ hrest <;> cases alg <;> decide
+
+/-- in particular every cached file `XvcCachePath::new` can produce -/
+theorem C16_cache_file_ignored_for_every_algorithm (alg : HashAlgorithm) (hex ext rest : Str) (deeper : List Str)
+    (hrest : ∀ g ∈ parseContent rest, g.neg = false) :
+    ignoredBy ((Gen.GITIGNORE_INITIAL_CONTENT.toList ++ rest) :: [] :: deeper) (cachePathComps alg hex ext) false = true :=
+  C16_cache_ignored_for_every_algorithm alg rest _ false deeper hrest
+
+/-- the local configuration `.xvc/config.local.toml` (written by `xvc init`, "This file is .gitignored") and
+    any other file xvc may put directly under `.xvc/` is ignored as well -/
+theorem C16_local_config_ignored (rest : Str) (deeper : List Str) (hrest : ∀ g ∈ parseContent rest, g.neg = false) :
+    ignoredBy ((Gen.GITIGNORE_INITIAL_CONTENT.toList ++ rest) :: [] :: deeper)
+      [".xvc".toList, "config.local.toml".toList] false = true :=
+  C16_cache_never_staged rest "config.local.toml".toList [] false deeper (by decide) (by decide) (by decide) (by decide) hrest
+
+/-- non-vacuity, computed on a workspace right after `xvc init` + two tracked files: a cached file of every
+    algorithm is ignored, the store / entity counter / project configuration are not -/
+example : ∀ alg ∈ HashAlgorithm.all,
+    let root := Gen.GITIGNORE_INITIAL_CONTENT.toList ++ "\n### Following 2 lines are added by xvc on D\n/data.bin\n/a/\n".toList
+    let t : Tree := .node root [] [(".xvc".toList, .node [] [] [])]
+    gitIgnored t (cachePathComps alg "0123456789abcdef".toList "bin".toList) false = true ∧
+    gitIgnored t [".xvc".toList, "config.local.toml".toList] false = true ∧
+    gitIgnored t [".xvc".toList, "store".toList, "xvc-path-store".toList, "1.json".toList] false = false := by decide
+
 /-- non-vacuity: a real cache path below the text written by `xvc init` and two lines added by `xvc file track` -/
 example :
     let root := Gen.GITIGNORE_INITIAL_CONTENT.toList ++ "\n### Following 2 lines are added by xvc on D\n/data.bin\n/a/\n".toList
@@ -594,3 +638,11 @@ open Ign.Git in
 #print axioms C16_anchored_line_counterexample
 open Ign.Git in
 #print axioms C16_cache_never_staged
+open Ign.Git in
+#print axioms C16_hash_algorithms_as_in_source
+open Ign.Git in
+#print axioms C16_cache_ignored_for_every_algorithm
+open Ign.Git in
+#print axioms C16_cache_file_ignored_for_every_algorithm
+open Ign.Git in
+#print axioms C16_local_config_ignored
